@@ -360,11 +360,17 @@ def run_case(case, rec, mon=None):
             fl = comp.frame_length
             mon.active = False
             try:
-                scripted = torch.jit.script(mod)
-                ex = torch.from_numpy(gen.signal(rng, 2 * fl + 3, "noise"))
-                traced = torch.jit.trace(mod, (ex,), check_trace=False)
-                for N in (fl, 3 * fl + 1, max(0, fl // 2 - 1), 5 * fl):
-                    x = torch.from_numpy(gen.signal(rng, N, "noise"))
+                from ..common import config_value
+
+                # the module is compiled while config.LOG_FLOOR_VALUE holds another value for a moment (a program that extracts one feature
+                # set with a higher floor); at call time everything is back at the default - a compiled module is the module
+                with config_value("LOG_FLOOR_VALUE", 1e-2):
+                    scripted = torch.jit.script(mod)
+                    ex = torch.from_numpy(gen.signal(rng, 2 * fl + 3, "noise"))
+                    traced = torch.jit.trace(mod, (ex,), check_trace=False)
+                rec.count("modules_compiled_while_the_log_floor_was_changed")
+                for jN, N in enumerate((fl, 3 * fl + 1, max(0, fl // 2 - 1), 5 * fl, 3 * fl + 2, 4 * fl)):
+                    x = torch.from_numpy(gen.signal(rng, N, "noise" if jN < 4 else ("zeros", "noise_small")[jN - 4]))  # (silence and a very quiet recording: the floor decides)
                     with torch.no_grad():
                         e = mod(x)
                         for name, m in (("scripted", scripted), ("traced", traced)):
